@@ -566,6 +566,34 @@ func ruleR4(c *Ctx) {
 		c.ok("R4", "ownersFor/persist", upd.Pos(), miss && retOK && fresh, what,
 			"the map update is not on the lookup-miss path, does not store a fresh ledger, or the function returns something other than the stored / looked-up ledger")
 	}
+	// the ledger map itself is only modified by the accessor (no delete / overwrite of a container's ledger elsewhere)
+	roT := m.named(pkgAdapt, "resultOwners")
+	for _, f := range m.funcsInPkg(pkgAdapt) {
+		if f == acc {
+			continue
+		}
+		for _, b := range f.Blocks {
+			for _, in := range b.Instrs {
+				var mp ssa.Value
+				kind := ""
+				switch x := in.(type) {
+				case *ssa.MapUpdate:
+					mp, kind = x.Map, "assigned"
+				case *ssa.Call:
+					if bi, ok := x.Call.Value.(*ssa.Builtin); ok && bi.Name() == "delete" {
+						mp, kind = x.Call.Args[0], "deleted"
+					}
+				}
+				if mp == nil {
+					continue
+				}
+				if n, ok := types.Unalias(mp.Type()).(*types.Named); ok && n.Obj() == roT.Obj() {
+					c.violate("R4", "ledger-write/"+funcKey(f), in.Pos(), "per-container ledgers are only created by the accessor and never dropped during a request",
+						fmt.Sprintf("an entry of the ownership ledger is %s in %s: the claims of earlier plugins on that container are forgotten, so a later plugin setting the same item is not refused", kind, funcKey(f)))
+				}
+			}
+		}
+	}
 	// who writes result.owners: only stores whose base is a fresh allocation in the same function
 	resT := m.named(pkgAdapt, "result")
 	n := 0
@@ -749,9 +777,15 @@ func (ma *mergeAnalysis) ruleR6(c *Ctx) {
 				key = fmt.Sprintf("%s#%d", base, ord[base])
 			}
 			a := c.M.ap(cc.id)
+			// an id handed down as a parameter is what every caller passes
+			if prm, ok := cc.id.(*ssa.Parameter); ok && prm != mf.recv {
+				if ra, ok := resolveParamAP(c.M, mf.fn, prm); ok {
+					a = ra
+				}
+			}
 			what := fmt.Sprintf("%s in %s is keyed by the target container's id", cc.callee.Name(), mf.fn.Name())
 			if creation {
-				okID := a.Root == ssa.Value(mf.recv) && a.PathString() == "request.create.Container.Id"
+				okID := isResultRecv(a.Root) && a.PathString() == "request.create.Container.Id"
 				c.ok("R6", key, cc.call.Pos(), okID, what, "id argument is "+a.String()+", not the id of the container being created (r.request.create.Container.Id): ownership is recorded under another container")
 			} else {
 				p, isP := a.Root.(*ssa.Parameter)
@@ -950,7 +984,8 @@ func (ma *mergeAnalysis) ruleR8(c *Ctx) {
 						if len(distinct) == 1 {
 							found = true
 						}
-					} else if item != "" && (it == item || "Linux."+it == item) {
+					} else if item != "" && (it == item || "Linux."+it == item || strings.HasSuffix(item, "."+it)) {
+						// the last form: a helper that is handed the sub-message (mem.Limit for Memory.Limit)
 						found = true
 					}
 				}
@@ -971,6 +1006,10 @@ func (mf *mergeFn) itemControls(b *ssa.BasicBlock) []Cond {
 	for _, cd := range controls(b) {
 		ib := cd.If.Block()
 		if inLoop(ib) && !canReach(b, ib) {
+			continue
+		}
+		// `err != nil` tests of earlier steps are not conditions on the item
+		if bo, ok := normCond(cd).V.(*ssa.BinOp); ok && isNilConst(bo.Y) && isErrorType(bo.X.Type()) {
 			continue
 		}
 		out = append(out, cd)
@@ -1051,3 +1090,41 @@ func (mf *mergeFn) condSubjects(cd Cond) []AP {
 }
 
 var _ = sort.Strings
+
+// isResultRecv: v is the receiver parameter of a method of *result.
+func isResultRecv(v ssa.Value) bool {
+	p, ok := v.(*ssa.Parameter)
+	if !ok || p.Parent() == nil || len(p.Parent().Params) == 0 || p.Parent().Params[0] != p {
+		return false
+	}
+	n := recvNamed(p.Parent())
+	return n != nil && n.Obj().Name() == "result"
+}
+
+// resolveParamAP: the access path that every static caller passes for parameter prm of f (all callers must agree).
+func resolveParamAP(m *Module, f *ssa.Function, prm *ssa.Parameter) (AP, bool) {
+	idx := -1
+	for i, p := range f.Params {
+		if p == prm {
+			idx = i
+		}
+	}
+	if idx < 0 {
+		return AP{}, false
+	}
+	var res AP
+	n := 0
+	for _, cs := range m.callersOf(f) {
+		args := cs.Instr.Common().Args
+		if idx >= len(args) {
+			return AP{}, false
+		}
+		a := m.ap(args[idx])
+		if n > 0 && (a.RootString() != res.RootString() || a.PathString() != res.PathString()) {
+			return AP{}, false
+		}
+		res = a
+		n++
+	}
+	return res, n > 0
+}
